@@ -50,7 +50,7 @@ def values(delim, typ):
             '': [('a', 'a'), ('{ab}', 'ab'), ('{a{b}c}', 'abc'), (' {p{}q}', 'pq')],
             'str': [('{ab}', 'ab'), ('{a{b}c}', 'abc')],
             'int': [('{42}', 42), ('{-7}', -7), ('{"1F}', 31)],
-            'float': [('{1.5}', 1.5), ('{-2}', -2.0)],
+            'float': [('{1.5}', 1.5), ('{-2}', -2.0), ('{-.5}', -0.5), ('{--,25}', 0.25)],
             'dimen': [('{2pt}', Fraction(2 * PT)), ('{1in}', Fraction(7227, 100) * PT)],
             'list': [('{a,b}', ['a', 'b']), ('{a,{b,c},d}', ['a', 'b,c', 'd'])],
             'list(;)': [('{a;b}', ['a', 'b']), ('{a,b;{c;d}}', ['a,b', 'c;d'])],
@@ -65,7 +65,7 @@ def values(delim, typ):
         '': [('ab', 'ab'), ('a%sb%sc' % (o, c), 'a%sb%sc' % (o, c)), ('a{%s}b' % c, 'a%sb' % c), ('{%s}' % o, o)],
         'str': [('ab', 'ab'), ('a%sb%sc' % (o, c), 'a%sb%sc' % (o, c))],
         'int': [('42', 42), ('-7', -7)],
-        'float': [('1.5', 1.5)],
+        'float': [('1.5', 1.5), ('-.5', -0.5)],
         'dimen': [('2pt', Fraction(2 * PT))],
         'list': [('a,b', ['a', 'b']), ('a,{b%s},c' % c, ['a', 'b' + c, 'c'])],
         'list(;)': [('a;b', ['a', 'b'])],
@@ -306,6 +306,8 @@ def scan(kind, src):
         if kind == 'int':
             v = tex.readInteger()
             val = int(v)
+        elif kind == 'decimal':
+            val = float(tex.readDecimal())
         elif kind == 'dimen':
             v = tex.readDimen()
             val = float(v)
@@ -344,6 +346,13 @@ def numeric_cases(part, quick):
                     if sp in ('`\\a',) and nx == 'x':
                         nxs = ' x'
                     yield 'int', sg + sp + nxs, sign_value(sg) * val, rest
+    elif part == 'decimal':
+        for sg in SIGNS:
+            for ds, dv in DECIMALS + [('.25', Fraction(1, 4)), (',75', Fraction(3, 4))]:
+                for nx, rest in NEXTS:
+                    if nx == ' x':
+                        continue    # who absorbs a blank after a bare decimal factor is decided by the caller (unit scan)
+                    yield 'decimal', sg + ds + nx, sign_value(sg) * dv, rest
     elif part == 'dimen':
         for sg in SIGNS[:5] if quick else SIGNS:
             for ds, dv in DECIMALS:
@@ -391,6 +400,8 @@ def close(a, b):
 def num_matches(kind, exp, obs):
     if kind in ('int', 'doc'):
         return obs == exp
+    if kind == 'decimal':
+        return obs == float(exp)
     if kind == 'dimen':
         return close(obs, exp)
     nat, st, sh = obs
@@ -486,7 +497,7 @@ def replay(case):
                     return {'verdict': 'known', 'fid': fid, 'expected': core.jsonable(exp), 'observed': info, 'detail': sig}
                 return {'verdict': v, 'expected': repr(exp), 'observed': info, 'detail': 'signature %r' % sig}
         return {'verdict': 'ok', 'expected': None, 'observed': None, 'detail': 'call no longer generated'}
-    for part in ('int', 'dimen', 'glue', 'doc'):
+    for part in ('int', 'dimen', 'glue', 'doc', 'decimal'):
         if part != case['scanner']:
             continue
         for kind, src, exp, rest in numeric_cases(part, False):
@@ -524,6 +535,7 @@ def run(tier, seed, rep):
     for part in ('int', 'dimen', 'glue'):
         for i in range(NS):
             blocks.append(('num', part, quick, i, NS))
+    blocks.append(('num', 'decimal', quick, 0, 1))
     blocks.append(('num', 'doc', quick, 0, 1))
     blocks = core.rotate(blocks, seed)
     core.merge_all(run_block, blocks, rep)
